@@ -863,7 +863,103 @@ def sub_unit(rec, seed, shard, nshards, n=300, shrink=True):
     run_hypothesis(rec, seed, unit_cases(), lambda c: check_unit(c, rec), max_examples=n, shrink=shrink, name="unit")
 
 
+# ---------------------------------------------------------------- plan_flag: "requested by the plan" through the LLM planner
+
+_PLANNER_OUTCOMES = ["valid_true", "valid_true", "valid_false", "valid_nokey", "fenced_true", "prose", "schema_invalid",
+                     "adapter_error", "generate_raises", "adapter_none"]
+
+
+@st.composite
+def planflag_cases(draw):
+    """2-6 planner calls on ONE engine state (LLM policy): the request a plan makes for reflection must be the request
+    of THIS call's plan — a fallback plan (invalid output, adapter failure, backend inactive) requests nothing."""
+    steps = [{"outcome": draw(st.sampled_from(_PLANNER_OUTCOMES)), "agent": draw(st.sampled_from(AGENTS)),
+              "allow": draw(st.sampled_from([True, True, False]))} for _ in range(draw(st.integers(2, 6)))]
+    return {"steps": steps, "plan_items": draw(st.lists(st.sampled_from(["look", "edit graph", "ask", "say hi"]), max_size=3))}
+
+
+def check_planflag(case, rec=None):
+    from types import SimpleNamespace
+    import clematis.engine.stages.t3.policy as policy
+    import clematis.engine.orchestrator.core as core
+    from clematis.engine.stages.t3.policy import run_policy
+
+    world.reset_engine_globals()
+    state = SimpleNamespace(logs=[])
+    labels = []
+    runs_after_fallback = 0
+    prev_true = False
+    for i, st_ in enumerate(case["steps"], 1):
+        oc = st_["outcome"]
+        body = {"plan": list(case["plan_items"]), "rationale": "because"}
+        if oc in ("valid_true", "fenced_true"):
+            body["reflection"] = True
+        elif oc == "valid_false":
+            body["reflection"] = False
+        text = json.dumps(body)
+        if oc == "fenced_true":
+            text = "```json\n" + text + "\n```"
+        elif oc == "prose":
+            text = "Sure! Here is the plan: " + text
+        elif oc == "schema_invalid":
+            text = json.dumps({"plan": "not a list", "rationale": 5, "reflection": True})
+
+        class _Adapter:
+            def generate(self, prompt, max_tokens=256, temperature=0.2):
+                if oc == "generate_raises":
+                    raise RuntimeError("injected adapter failure")
+                return SimpleNamespace(text=text)
+
+        def _factory(cfg, oc=oc):
+            if oc == "adapter_error":
+                raise policy.LLMAdapterError("injected: fixture path not found")
+            if oc == "adapter_none":
+                return None
+            return _Adapter()
+
+        cfg = world.validated_cfg({"t3": {"backend": "llm", "allow_reflection": bool(st_["allow"])}})
+        ctx = world.make_ctx(cfg, agent=st_["agent"], turn_id=i, now_ms=world.NOW_MS + i)
+        with _patched(policy, "_get_llm_adapter_from_cfg", _factory):
+            try:
+                out = run_policy({"name": "llm", "meta": {}}, {}, cfg, ctx, state=state)
+            except Exception as e:
+                raise Violation(f"step {i} ({oc}): run_policy raised {type(e).__name__}: {e}", case, "planner-raises")
+        requested = oc in ("valid_true", "fenced_true")
+        is_fallback = oc in ("prose", "schema_invalid", "adapter_error", "generate_raises", "adapter_none")
+        if is_fallback and list(out.get("plan") or []):
+            raise Violation(f"step {i} ({oc}): fallback plan is not empty: {out!r}", case, "fallback-plan")
+        flag = bool(getattr(state, "_planner_reflection_flag", False))
+        # the real gate, as run_turn consults it after Apply (plan object without a reflection attribute: LLM path)
+        try:
+            res = core._run_reflection_if_enabled(ctx, state, SimpleNamespace(ops=[]), "hello", SimpleNamespace(retrieved=[]))
+        except Exception as e:
+            raise Violation(f"step {i} ({oc}): reflection gate raised {type(e).__name__}: {e}", case, "gate-raises")
+        ran = res is not None
+        want = bool(requested and st_["allow"])
+        if flag != requested or ran != want:
+            if is_fallback and prev_true:
+                runs_after_fallback += 1
+            raise Violation(f"step {i}: planner outcome {oc!r} (plan requests reflection: {requested}, allow_reflection="
+                            f"{st_['allow']}) but the gate input on the state is {flag} and reflection "
+                            f"{'ran' if ran else 'did not run'}; earlier outcomes {[x['outcome'] for x in case['steps'][:i - 1]]}",
+                            case, "plan-flag-stale" if (flag and not requested) else "plan-flag-lost")
+        labels.append(f"planner={oc}")
+        if is_fallback and prev_true:
+            labels.append("fallback_after_requested")
+        prev_true = requested
+    if rec is not None:
+        nt = "fallback_after_requested" in labels
+        rec.case(nontrivial=nt, dig=digest(case) if nt else None, labels=sorted(set(labels)), n=len(case["steps"]),
+                 sample={"outcomes": [x["outcome"] for x in case["steps"]]} if nt else None)
+
+
+def sub_planflag(rec, seed, shard, nshards, n=150, shrink=True):
+    run_hypothesis(rec, seed, planflag_cases(), lambda c: check_planflag(c, rec), max_examples=n, shrink=shrink, name="plan_flag")
+
+
 SUBCHECKS = [
+    Sub("plan_flag", sub_planflag, quick={"n": 150}, thorough={"n": 3000}, shards_quick=2, shards_thorough=4,
+        replay=lambda c: check_planflag(c, None)),
     Sub("turns", sub_turns, quick={"n": 130}, thorough={"n": 1500}, shards_quick=4, shards_thorough=16,
         replay=lambda c: check_turns(c, None)),
     Sub("purity", sub_purity, quick={"n": 40}, thorough={"n": 500}, shards_quick=2, shards_thorough=8,
